@@ -26,7 +26,12 @@ func newNameWorld(prog *load.Program) (*nameWorld, error) { return newNameWorldF
 
 // newNameWorldFor: a name world whose registry was built for the given -pkg value.
 func newNameWorldFor(prog *load.Program, moqPkg string) (*nameWorld, error) {
-	w, err := newRegWorld(prog, nil, moqPkg)
+	return newNameWorldSpecs(prog, moqPkg, nil)
+}
+
+// newNameWorldSpecs: as newNameWorldFor, the source package's files carrying the given import specs.
+func newNameWorldSpecs(prog *load.Program, moqPkg string, specs []importSpec) (*nameWorld, error) {
+	w, err := newRegWorld(prog, specs, moqPkg)
 	if err != nil {
 		return nil, err
 	}
@@ -276,40 +281,46 @@ func namesTables(c *Ctx, required []string, exact bool, withDefaults bool) {
 		key   string
 		steps []addStep
 		keep  []int // indices of steps whose written name must survive (no collision touches them)
+		specs []importSpec // import specs of the source package's files (none unless given)
 	}{
-		{"two unnamed parameters of one type", []addStep{{"", strT, ""}, {"", strT, ""}}, nil},
-		{"three unnamed parameters of one type", []addStep{{"", strT, ""}, {"", strT, ""}, {"", strT, ""}}, nil},
-		{"an unnamed result next to an unnamed parameter of the same type", []addStep{{"", strT, ""}, {"", strT, "Out"}}, nil},
-		{"two unnamed results of one type", []addStep{{"", strT, "Out"}, {"", strT, "Out"}}, nil},
-		{"a parameter written s next to an unnamed string", []addStep{{"s", intF, ""}, {"", strT, ""}}, nil},
-		{"an unnamed string next to a parameter written s", []addStep{{"", strT, ""}, {"s", intF, ""}}, nil},
-		{"parameters written s1 and s2 next to two unnamed strings", []addStep{{"s1", intF, ""}, {"s2", intF, ""}, {"", strT, ""}, {"", strT, ""}}, nil},
-		{"a parameter named like a package imported later", []addStep{{"ka", intF, ""}, {"x", leaf("ka"), ""}}, []int{1}},
-		{"a parameter named like a package imported earlier", []addStep{{"x", leaf("ka"), ""}, {"ka", intF, ""}}, []int{0}},
-		{"a parameter named like the package of its own type", []addStep{{"ka", leaf("ka"), ""}}, nil},
-		{"two unnamed values of a type named Float3 (numbering gives float31, float32)", []addStep{{"", func() ktype { return kNamedIn(kpath("kf"), "kf", "Float3", nil, nil) }, ""}, {"", func() ktype { return kNamedIn(kpath("kf"), "kf", "Float3", nil, nil) }, ""}}, nil},
-		{"a parameter named like a package, then an unnamed value whose default name is that package's name too", []addStep{{"kt", intF, ""}, {"", func() ktype { return kNamedIn(kpath("kt"), "kt", "Kt", nil, nil) }, ""}}, nil},
-		{"an unnamed value whose default name is its package's name, then a parameter named like that package", []addStep{{"", func() ktype { return kNamedIn(kpath("kt"), "kt", "Kt", nil, nil) }, ""}, {"kt", intF, ""}}, nil},
-		{"a result named like a package imported by a parameter", []addStep{{"x", leaf("ka"), ""}, {"ka", intF, "Out"}}, []int{0}},
-		{"distinct written names", []addStep{{"a", intF, ""}, {"b", strT, ""}, {"c", leaf("ka"), ""}}, []int{0, 1, 2}},
-		{"a parameter named like a package that only a result's type imports", []addStep{{"ka", intF, ""}, {"", leaf("ka"), "Out"}}, nil},
-		{"a package qualified s1 and two unnamed strings", []addStep{{"x", leaf("s1"), ""}, {"", strT, ""}, {"", strT, ""}}, []int{0}},
-		{"a package qualified s2 and three unnamed strings", []addStep{{"x", leaf("s2"), ""}, {"", strT, ""}, {"", strT, ""}, {"", strT, ""}}, []int{0}},
+		{"two unnamed parameters of one type", []addStep{{"", strT, ""}, {"", strT, ""}}, nil, nil},
+		{"three unnamed parameters of one type", []addStep{{"", strT, ""}, {"", strT, ""}, {"", strT, ""}}, nil, nil},
+		{"an unnamed result next to an unnamed parameter of the same type", []addStep{{"", strT, ""}, {"", strT, "Out"}}, nil, nil},
+		{"two unnamed results of one type", []addStep{{"", strT, "Out"}, {"", strT, "Out"}}, nil, nil},
+		{"a parameter written s next to an unnamed string", []addStep{{"s", intF, ""}, {"", strT, ""}}, nil, nil},
+		{"an unnamed string next to a parameter written s", []addStep{{"", strT, ""}, {"s", intF, ""}}, nil, nil},
+		{"parameters written s1 and s2 next to two unnamed strings", []addStep{{"s1", intF, ""}, {"s2", intF, ""}, {"", strT, ""}, {"", strT, ""}}, nil, nil},
+		{"a parameter named like a package imported later", []addStep{{"ka", intF, ""}, {"x", leaf("ka"), ""}}, []int{1}, nil},
+		{"a parameter named like a package imported earlier", []addStep{{"x", leaf("ka"), ""}, {"ka", intF, ""}}, []int{0}, nil},
+		{"a parameter named like the package of its own type", []addStep{{"ka", leaf("ka"), ""}}, nil, nil},
+		{"two unnamed values of a type named Float3 (numbering gives float31, float32)", []addStep{{"", func() ktype { return kNamedIn(kpath("kf"), "kf", "Float3", nil, nil) }, ""}, {"", func() ktype { return kNamedIn(kpath("kf"), "kf", "Float3", nil, nil) }, ""}}, nil, nil},
+		{"a parameter named like a package, then an unnamed value whose default name is that package's name too", []addStep{{"kt", intF, ""}, {"", func() ktype { return kNamedIn(kpath("kt"), "kt", "Kt", nil, nil) }, ""}}, nil, nil},
+		{"an unnamed value whose default name is its package's name, then a parameter named like that package", []addStep{{"", func() ktype { return kNamedIn(kpath("kt"), "kt", "Kt", nil, nil) }, ""}, {"kt", intF, ""}}, nil, nil},
+		{"a result named like a package imported by a parameter", []addStep{{"x", leaf("ka"), ""}, {"ka", intF, "Out"}}, []int{0}, nil},
+		{"distinct written names", []addStep{{"a", intF, ""}, {"b", strT, ""}, {"c", leaf("ka"), ""}}, []int{0, 1, 2}, nil},
+		{"a parameter named like a package that only a result's type imports", []addStep{{"ka", intF, ""}, {"", leaf("ka"), "Out"}}, nil, nil},
+		{"a package qualified s1 and two unnamed strings", []addStep{{"x", leaf("s1"), ""}, {"", strT, ""}, {"", strT, ""}}, []int{0}, nil},
+		{"a package qualified s2 and three unnamed strings", []addStep{{"x", leaf("s2"), ""}, {"", strT, ""}, {"", strT, ""}, {"", strT, ""}}, []int{0}, nil},
 		{"a parameter named like a package met after the mock's own package in one type", []addStep{{"zz", intF, ""}, {"m", func() ktype {
 			own := kNamedIn(rwSrcPath, rwSrcName, "Own", nil, nil)
 			return &interp.Opaque{Kind: "types.Type", ID: "mapOwn", GoType: "*go/types.Map", Methods: mmap{"Key": tmeth(own), "Elem": tmeth(kLeaf("zz"))}}
-		}, ""}}, []int{1}},
+		}, ""}}, []int{1}, nil},
 		{"a parameter named like the second of two packages one type imports", []addStep{{"kb", intF, ""}, {"m", func() ktype {
 			return &interp.Opaque{Kind: "types.Type", ID: "map2p", GoType: "*go/types.Map", Methods: mmap{"Key": tmeth(kLeaf("ka")), "Elem": tmeth(kLeaf("kb"))}}
-		}, ""}}, []int{1}},
+		}, ""}}, []int{1}, nil},
 		// names are compared exactly: what differs in case collides with nothing
-		{"written names that differ only in case", []addStep{{"userID", intF, ""}, {"userId", strT, ""}}, []int{0, 1}},
-		{"a parameter written in upper case next to a package of that name in lower case", []addStep{{"KA", intF, ""}, {"x", leaf("ka"), ""}}, []int{0, 1}},
+		{"written names that differ only in case", []addStep{{"userID", intF, ""}, {"userId", strT, ""}}, []int{0, 1}, nil},
+		{"a parameter written in upper case next to a package of that name in lower case", []addStep{{"KA", intF, ""}, {"x", leaf("ka"), ""}}, []int{0, 1}, nil},
 		// once two packages of one name have been given other qualifiers, their bare name is free again
 		{"a parameter written like the bare name two re-qualified packages share", []addStep{
 			{"x", func() ktype { return kNamedIn("example.test/alpha/kc", "kc", "T1", nil, nil) }, ""},
 			{"y", func() ktype { return kNamedIn("example.test/beta/kc", "kc", "T2", nil, nil) }, ""},
-			{"kc", intF, ""}}, []int{0, 1, 2}},
+			{"kc", intF, ""}}, []int{0, 1, 2}, nil},
+		// what a source file calls a package the mock never imports is no qualifier of the generated file
+		{"a parameter written like the name a source file gives to a package no signature mentions", []addStep{{"kq", intF, ""}, {"x", leaf("ka"), ""}}, []int{0, 1},
+			[]importSpec{{name: "kq", path: "example.test/unused/kq0"}, {name: "kr", path: "example.test/unused/kr0"}}},
+		{"an unnamed value whose default name is the name a source file gives to a package no signature mentions", []addStep{{"", func() ktype { return kNamedIn(kpath("kf"), "kf", "Kq", nil, nil) }, ""}}, nil,
+			[]importSpec{{name: "kq", path: "example.test/unused/kq0"}}},
 	}
 	if c.Tier == "thorough" {
 		// longer runs of one type, two numbered qualifiers at once, results and parameters mixed
@@ -318,7 +329,8 @@ func namesTables(c *Ctx, required []string, exact bool, withDefaults bool) {
 				key   string
 				steps []addStep
 				keep  []int
-			}{key, steps, nil})
+				specs []importSpec
+			}{key, steps, nil, nil})
 		}
 		more("five unnamed parameters of one type", addStep{"", strT, ""}, addStep{"", strT, ""}, addStep{"", strT, ""}, addStep{"", strT, ""}, addStep{"", strT, ""})
 		more("packages qualified s1 and s3 and four unnamed strings", addStep{"x", leaf("s1"), ""}, addStep{"y", leaf("s3"), ""}, addStep{"", strT, ""}, addStep{"", strT, ""}, addStep{"", strT, ""}, addStep{"", strT, ""})
@@ -331,7 +343,7 @@ func namesTables(c *Ctx, required []string, exact bool, withDefaults bool) {
 		}, "Out"})
 	}
 	for _, sc := range scenarios {
-		w, err := newNameWorld(prog)
+		w, err := newNameWorldSpecs(prog, "", sc.specs)
 		if err != nil {
 			und("G-ADDVAR/table", sc.key, err)
 			continue
